@@ -6,12 +6,48 @@ LEVEL = 'model_checking'
 RULE = ('TLC explores 2-3 connections subscribing / pattern-subscribing / unsubscribing / publishing over overlapping '
         'channels and glob patterns (MC_PubSub) and checks exactly-once delivery per subscription, acknowledgement counts and '
         'cleanup; its transitions are replayed; seeded random multi-client histories with binary payloads, named and unnamed '
-        'unsubscription and disconnects are driven serially; every acknowledgement frame, every PUBLISH count and every '
+        'unsubscription and disconnects are driven serially; a pattern x channel matrix (every pattern over {a,b,*,?} up to length 3/4 '
+        'plus classes, escapes and overlapping false starts, every channel over {a,b} up to length 4/5) exercises the matcher; every acknowledgement frame, every PUBLISH count and every '
         'push frame read by every subscriber is matched by TLC against the per-subscriber inbox of the spec, and a final '
         'quiesce event requires that nothing owed is missing.')
 ASSUMPTIONS = ['a closed client is considered gone once the server event loop has made 3 further iterations (hook H2); '
                'until then PUBLISH may or may not count it',
                'push frames of one PUBLISH to one client may arrive in any order (bag)']
+
+
+def glob_matrix(ctx, srv):
+    """Every pattern of the matrix (workloads.glob_matrix) against every channel: a subscriber holds a batch of
+    patterns, a publisher sends to each channel; receiver counts and pmessage frames are validated by TLC (Glob)."""
+    pats, chans = workloads.glob_matrix(ctx.quick)
+    s = workloads.fresh_session(ctx, srv, 'globs')
+    pairs = 0
+    try:
+        pub = s.open()
+        batch = 12
+        for i in range(0, len(pats), batch):
+            sub = s.open()
+            s.cmd(sub, [b'PSUBSCRIBE'] + pats[i:i + batch])
+            for ch in chans:
+                s.cmd(pub, [b'PUBLISH', ch, b'm'])
+                s.poll_all(0.002)
+                pairs += len(pats[i:i + batch])
+            s.quiesce(0.01)
+            s.poll(sub)
+            s.close(sub)
+            if s.trace.n > 12000:
+                s.close_all()
+                ctx.validate(s.trace, label='globs[..%d]' % i)
+                s = workloads.fresh_session(ctx, srv, 'globs')
+                pub = s.open()
+        s.quiesce()
+    except (workloads.ServerDied, OSError):
+        if not srv.alive():
+            s.trace.emit({'k': 'crash', 'status': srv.exit_status()})
+    s.close_all()
+    ctx.validate(s.trace, label='globs')
+    if not srv.alive():
+        srv.restart()
+    return pairs
 
 
 def run(ctx):
@@ -24,7 +60,9 @@ def run(ctx):
     for i in range(n_hist):
         workloads.pubsub_history(ctx, srv, workloads.PubSubGen(ctx.rnd, 4 if ctx.quick else 5), 250 if ctx.quick else 800,
                                  'ps%d' % i)
-    ctx.extra_cov['distinct_cases'] = len(paths) + n_hist
+    pairs = glob_matrix(ctx, srv)
+    ctx.extra_cov['glob_pairs'] = pairs
+    ctx.extra_cov['distinct_cases'] = len(paths) + n_hist + pairs
 
 
 def replay(ctx, path):
